@@ -364,6 +364,10 @@ def run(prog, rep):
               "SmartList.remove no longer goes through the identity based index", rm.where)
     # ----------------------------------------------------------------- INV-I
     from ..report import import_verdicts
+    import_verdicts(prog, rep, "C11", ("ID-2",), "ID-2",
+                    "names change through the name setters only, which check the siblings: new_id() writes the id and nothing else - a new_id "
+                    "that also re-binds the name of an unnamed object puts a name into the list that no clash test has seen")
+    from ..report import import_verdicts
     import_verdicts(prog, rep, "C03", ("PAIR-1", "DOM-1", "OWN-1"), "INV-I",
                     "the name setters look the siblings up through <obj>.parent: every function that lists a child must leave its parent "
                     "pointer consistent")
